@@ -89,7 +89,7 @@ def xConvDecimal (XO : XOracles) (v : PyVal) : R Q :=
     | none => .error .typeErr
 
 /-- `DecimalNumber.__set__`: convert, then the Number checks on the Decimal -/
-def vDecimal (XO : XOracles) (o : NumOpts) (v : PyVal) : R PyVal :=
+def sxDecimal (XO : XOracles) (o : NumOpts) (v : PyVal) : R PyVal :=
   bindE (xConvDecimal XO v) fun q => if numOk o q then .ok (.dec q) else .error .valueErr
 
 /-- `DecimalNumber.deserialize`: convert only (the bounds are the constructor's business) -/
@@ -210,7 +210,7 @@ mutual
 /-- `field.__set__(fresh_instance, v)` -/
 def validateX (XO : XOracles) : XDecl → PyVal → R PyVal
   | .base f, v => validate XO.base f v
-  | .decimal o, v => vDecimal XO o v
+  | .decimal o, v => sxDecimal XO o v
   | .enumVal cls ms mx, v => vEnumVal cls ms mx v
   | .temporal ty fmt ints, v => vTemporal XO ty fmt ints v
   | .enumName cls ms mx, v => vEnumVal cls ms mx v
